@@ -13,12 +13,18 @@ Over M7 `Tank` (update_tank_heads, numpy.interp with clamping, TankLevelConditio
   * `limit_overshoot_bound` (+ `_max`, `_min`)   the step a crossing level condition asks for leaves the level at or past the
                                       threshold by less than one second of flow (backtrack floor)
   * `LimitBoundFull` is FALSE for volume-curve tanks (`limit_bound_counterexample`), `limit_overshoot_bound_curve_partial`
+  * run level (M5c `TankRun`, arbitrary `solve`): `rows_chain_along_run`, `level_trace_is_integral_run`,
+    `volume_trace_is_integral_run_partial`; `presolve_time_le` (the presolve pass cuts the step at a due closing control whose
+    closing the tracker sees), `limit_one_sided_min`, `limits_hold_along_run` (under Hflow / Hcut / Hint, see there)
+  * extrapolating curve lookup (repair fixes/C06-volcurve-extrapolate, `Tank.extrap = true`): `volcurve_euler_exact_extrap`,
+    `volcurve_euler_full_extrap : VolcurveEulerFull true`, `limit_overshoot_bound_curve_extrap`, `limit_bound_full_extrap`
   * `min_close_control_exists`, `max_close_control_exists`   every link that can carry water out of (into) the tank has a
                                       pre-and-postsolve close control at the min (max) head
 -/
 import WntrModel.Model.Tank
 import WntrModel.Lemmas.TankInterp
 import WntrModel.Lemmas.TankRun
+import WntrModel.Lemmas.ControlsLimit
 import Mathlib.Tactic.Ring
 import Mathlib.Tactic.Linarith
 import Mathlib.Tactic.FieldSimp
@@ -503,6 +509,119 @@ theorem limit_bound_full_extrap : LimitBoundFull true := by
   | some crv =>
     obtain ⟨hI, hlo, hhi⟩ := hwf crv hc
     exact limit_overshoot_bound_curve_extrap pi t crv hc hx hI (by linarith) c hattr prev q dt last hq hX
+
+/-! ### limits along the run -/
+
+open Wntr.Controls in
+/-- the presolve pass (not the first step) accepts a time no later than `t − d.back` for a due closing control `d` of a link
+whose closing the tracker sees (`Closes`: an open tracked pipe or pump — `closes_of_open_nonvalve`) -/
+theorem presolve_time_le (tracked : List (Nat × Watch)) (due : List Due) (ls : Links) (t : Int) (d : Due) (hd : d ∈ due)
+    (hf : d.ctl.act.field = .internal) (hv : d.ctl.act.value = 0) (hlt : d.ctl.act.link < ls.length)
+    (hcl : Closes tracked ls d.ctl.act.link)
+    (hint : ∀ e ∈ due, e.ctl.hits d.ctl.act.link .internal → e.ctl.act.value = 0) :
+    (presolve tracked false due ls t).2 ≤ t - d.back := by
+  unfold presolve
+  simp only [Bool.false_eq_true, if_false]
+  have hperm : ∀ x, x ∈ sortDue due ↔ x ∈ due := fun x => by
+    unfold sortDue
+    rw [(sortBy_perm _ _).mem_iff, (sortBy_perm _ _).mem_iff]
+  have hsorted : (sortDue due).Pairwise (fun a b => b.back ≤ a.back) :=
+    (sortBy_sorted (fun d : Due => - d.back) _).imp (fun h => by omega)
+  exact presolveLoop_time_le tracked ls _ hcl _ _ ls t d (le_refl _) hsorted ((hperm d).mpr hd) rfl hf hv hlt rfl
+    (fun e he => hint e ((hperm e).mp he))
+
+/-- draining cylinder (`q < 0`): any accepted step cut by AT LEAST the backtrack `⌊(value − θ)·A/q⌋` leaves the value above
+`θ + q/A` — less than one second of flow below the threshold -/
+theorem limit_one_sided_min (pi : Rat) (t : Tank) (hc : t.curve = none) (hpi : 0 < pi) (hd : t.diam ≠ 0) (a : Attr)
+    (thr prev q dt : Rat) (hq : q < 0) (B : Int)
+    (hB : ((attrValue t (updateHead pi t prev prev q dt) a - thr) * pi / 4 * (t.diam * t.diam) / q).floor ≤ B) :
+    thr + q / area pi t < attrValue t (acceptedHead pi t prev q dt B) a := by
+  set x := (attrValue t (updateHead pi t prev prev q dt) a - thr) * pi / 4 * (t.diam * t.diam) / q with hx
+  have hpi' : pi ≠ 0 := ne_of_gt hpi
+  have hqn : q ≠ 0 := ne_of_lt hq
+  have hA : 0 < area pi t := by
+    unfold area
+    have : 0 < t.diam * t.diam := by
+      rcases lt_or_gt_of_ne hd with h | h
+      · exact mul_pos_of_neg_of_neg h h
+      · exact mul_pos h h
+    exact mul_pos (div_pos hpi (by norm_num)) this
+  have key : (attrValue t (acceptedHead pi t prev q dt B) a - thr) * area pi t / q = x - (B : Rat) := by
+    have hacc : acceptedHead pi t prev q dt B
+        = updateHead pi t prev prev q dt + (-(4 * (q * (B : Rat)) / (pi * (t.diam * t.diam)))) := by
+      unfold acceptedHead updateHead
+      rw [hc]
+      field_simp
+      ring
+    rw [hacc, attrValue_shift, hx]
+    unfold area
+    field_simp
+    ring
+  have f2 := Rat.lt_floor_add_one x
+  have f3 : ((x.floor + 1 : Int) : Rat) = (x.floor : Rat) + 1 := by push_cast; ring
+  rw [f3] at f2
+  have hBr : (x.floor : Rat) ≤ (B : Rat) := by exact_mod_cast hB
+  have hlt1 : (attrValue t (acceptedHead pi t prev q dt B) a - thr) * area pi t / q < 1 := by rw [key]; linarith
+  -- multiply by q/A < 0
+  have hAn : area pi t ≠ 0 := ne_of_gt hA
+  by_contra hh
+  have h3 : attrValue t (acceptedHead pi t prev q dt B) a - thr ≤ q / area pi t := by linarith [not_lt.mp hh]
+  have hdiv : area pi t / q < 0 := by
+    rw [div_eq_mul_inv]; exact mul_neg_of_pos_of_neg hA (inv_lt_zero.mpr hq)
+  have h4 : (q / area pi t) * (area pi t / q) ≤ (attrValue t (acceptedHead pi t prev q dt B) a - thr) * (area pi t / q) :=
+    mul_le_mul_of_nonpos_right h3 (le_of_lt hdiv)
+  have h5 : (q / area pi t) * (area pi t / q) = 1 := by field_simp
+  have e : (attrValue t (acceptedHead pi t prev q dt B) a - thr) * area pi t / q
+      = (attrValue t (acceptedHead pi t prev q dt B) a - thr) * (area pi t / q) := by ring
+  rw [e] at hlt1
+  linarith
+
+/-- `limits_hold_along_run` (min side, levels of one cylindrical tank along consecutive reported rows, oldest first as
+`(time, level, demand)`): if
+  (Hflow) a tank at or below `min` does not discharge at a reported row  — hydraulics: C02 `closed_link_zero_flow` + flow
+          follows the head difference, which the re-open rule `tank.head ≤ other.head` relies on;
+  (Hcut)  a draining tank above `min` is cut by the presolve pass so that the next level is above `min + q/A`
+          — `presolve_time_le` + `limit_one_sided_min` deliver this whenever the min-close control is due with the backtrack
+          computed from the accepted level and some link it closes is an open tracked pipe/pump (`closes_of_open_nonvalve`);
+  (Hint)  levels integrate the reported demand (`level_trace_is_integral_run`),
+then every level stays above `min − Q/A·1 s`, `Q` a bound of the reported flows. -/
+theorem limits_hold_along_run (A mn Q : Rat) (hA : 0 < A) (hQ : 0 ≤ Q) :
+    ∀ (rows : List (Rat × Rat × Rat)) (l0 q0 t0 : Rat), mn - Q / A ≤ l0 →
+      List.IsChain (fun (a b : Rat × Rat × Rat) =>
+        a.1 ≤ b.1 ∧ A * (b.2.1 - a.2.1) = a.2.2 * (b.1 - a.1)            -- Hint, time moves forward
+        ∧ (a.2.1 ≤ mn → 0 ≤ a.2.2)                                        -- Hflow
+        ∧ (mn < a.2.1 → a.2.2 < 0 → mn + a.2.2 / A < b.2.1)               -- Hcut
+        ∧ -Q ≤ a.2.2) ((t0, l0, q0) :: rows) →
+      ∀ r ∈ (t0, l0, q0) :: rows, mn - Q / A ≤ r.2.1 := by
+  intro rows
+  induction rows with
+  | nil => intro l0 q0 t0 h0 _ r hr; simp at hr; rw [hr]; exact h0
+  | cons b rest ih =>
+    intro l0 q0 t0 h0 hch r hr
+    rw [List.isChain_cons_cons] at hch
+    obtain ⟨⟨ht, hint, hflow, hcut, hqb⟩, hrest⟩ := hch
+    rcases List.mem_cons.mp hr with e | e
+    · rw [e]; exact h0
+    · obtain ⟨tb, lb, qb⟩ := b
+      simp only at ht hint hflow hcut hqb
+      have hb : mn - Q / A ≤ lb := by
+        have hdt : 0 ≤ tb - t0 := by linarith
+        by_cases hq : 0 ≤ q0
+        · have : 0 ≤ A * (lb - l0) := by rw [hint]; exact mul_nonneg hq hdt
+          have : 0 ≤ lb - l0 := by
+            by_contra hh
+            have := mul_neg_of_pos_of_neg hA (not_le.mp hh)
+            linarith
+          linarith
+        · have hq' : q0 < 0 := not_le.mp hq
+          have hl : mn < l0 := by
+            by_contra hh
+            exact hq (hflow (not_lt.mp hh))
+          have h1 := hcut hl hq'
+          have : -(Q / A) ≤ q0 / A := by
+            rw [← neg_div]; exact div_le_div_of_nonneg_right hqb (le_of_lt hA)
+          linarith
+      exact ih lb qb tb hb hrest r e
 
 /-! ### which links the limit controls close -/
 
